@@ -244,8 +244,8 @@ class Engine(StmtMixin, LoopMixin, CallMixin, Expr2Mixin, ExprMixin, EngineBase)
         self.top_frame = fid
         self.terminals = []
         self.register_axioms(spec)
-        if not spec.qualname.endswith('.__init__'):
-            self.register_class_invariants()
+        if spec.class_invariants and not spec.qualname.endswith('.__init__'):
+            self.register_class_invariants()          # (opt-in: quantified background axioms cost the solver its counter-models elsewhere)
         # parameters
         a = fn.args
         pnames = [p.arg for p in a.posonlyargs + a.args + a.kwonlyargs]
